@@ -417,8 +417,10 @@ def c10_units(th):
          U(["GRP", "X"], query=True, h=H(hdr="X", items=("ON", "OFF"))),
          U(["Bq"], query=True, h=H(items=("#12x;",))),          # payload ending in the unit separator byte
          U(["GRP"], query=True, h=H(items=("#11,", "#11\n"))),   # ... in the data separator / terminator byte
-         U(["SENS"], query=True, h=H(items=('-171,"Invalid expression;ext one"', '0,"No error"'))),   # error/event queue items
-         U(["SENS", "AC"], query=True, h=H(items=("\x80", "5")))]   # an unformattable datum: the message must fail, not emit ',5' 
+         U(["SENS"], query=True, h=H(items=('-171,"Invalid expression;ext ""one"""', '0,"No error"'))),   # error/event queue items
+         U(["SENS", "AC"], query=True, h=H(items=("\x80", "5"))),   # an unformattable datum: the message must fail, not emit ',5'
+         U(["Bq"], query=True, h=H(items=("1,100000,2", "ASC2"))),   # a derived enum with a numeric suffix; a list with a long middle element
+         U(["GRP"], query=True, h=H(items=("-7,30000", "CHAN12345")))]
     e = [U(["A"]), U(["GRP", "X"], data=[DATA["str"]], h=H(pulls=["req"])), U(["*OPC"])]
     return q, e
 
@@ -443,8 +445,8 @@ def run_c11(chk, tier, seed):
     q, e = c10_units(th)
     conv = U(["A"], data=[DATA[x] for x in ("num2", "numsuf", "expr", "hex", "str", "blk", "chr")], h=H(pulls=["req"] * 7))
     # error/event queue items (with and without extended text) formatted by the library's own Error formatter
-    q = q + [U(["SENS"], query=True, h=H(items=('-171,"Invalid expression;ext one"',))),
-             U(["SENS", "AC"], query=True, h=H(items=('-113,"Undefined header"', '7,"Custom;x;y"')))]
+    q = q + [U(["SENS"], query=True, h=H(items=('-171,"Invalid expression;ext ""one"""',))),
+             U(["SENS", "AC"], query=True, h=H(items=('-113,"Undefined header"', '7,"Custom ""dev"" error;x;y"')))]
     defs = [f"Q == {set_of(q)}", f"E == {set_of(e[:1] + [conv])}"]
     k = 3
     maxlen = 3 * 16 + 4
